@@ -14,7 +14,10 @@ CFG = {
             "position (path: single variable of every scalar type, each of three variables, typed head and elements "
             "of a wildcard, Option; typed wildcards Vec<Color> / Vec<Uuid> / Vec<char> with ONE ill-typed element alone, "
             "first, in the middle or last among valid ones (sometimes two); query: required / Option / defaulted field of every scalar type, mixed struct; "
-            "url-encoded and JSON body members; all three extractors at once with exactly one bad; a multi-fault stream over five "
+            "url-encoded and JSON body members; all three extractors at once with exactly one bad; a message-vocabulary stream (ill-typed values built from the framework's own error words - 'missing field', "
+            "'missing field: x', 'duplicate field `x`', 'unknown variant', 'invalid type', 'unable to parse', 'expected' - "
+            "alone / as prefix / as suffix / in the middle, in every typed path shape, in query, JSON and form members); "
+            "a multi-fault stream over five "
             "endpoint shapes with two or three extractors (Path+Query, Path+Query+JSON, Path+form, Query+Untyped, "
             "Path+Query+Multipart; body limit 256): every non-empty subset of {path, query, body} faulty at once, two or "
             "three concrete faults per stage (body: content type / syntax / type / duplicate field / too large)) one malformation "
